@@ -110,7 +110,7 @@ func RunC09(tier string, seed int64, outDir string, replay string) (*core.Result
 	res.Rule = "random programs whose user-chosen names are adversarial (typename options equal to fragment names, fragment+implementation names, response-type names and auto-generated names of other positions), each generated together and every operation again alone with the fragments it spreads; oracles: every response key of every position is carried by the Go type generated for it (type-level readability, computed from schema+document only), and the declarations of an operation generated alone are identical to those generated together; every declaration is also compared with the converter model in-kernel; non-trivial = accepted program; distinct by program text + config"
 	n := 80
 	if tier == "thorough" {
-		n = 800
+		n = 2400
 	}
 	rng := core.NewRng(seed)
 	var cases []*Case
